@@ -127,6 +127,41 @@ theorem val_lt_trans_partial (a b c : JVal) (h1 : depth a = depth b) (h2 : depth
   rw [val_lt_strip a b (by omega), val_lt_strip b c (by omega), val_lt_strip a c (by omega)]
   exact val_lt_trans0 _ _ _ (depth_strip a) (depth_strip b) (depth_strip c)
 
+/-- All transitivity instances the oracle checks, for one pointer nesting. -/
+theorem val_trans_partial (a b c : JVal) (h1 : depth a = depth b) (h2 : depth b = depth c) :
+    Obs.trans (obsVal a b) (obsVal b c) (obsVal a c) = true := by
+  rw [obsVal_strip a b h1, obsVal_strip b c h2, obsVal_strip a c (by omega)]
+  exact val_trans0 _ _ _ (depth_strip a) (depth_strip b) (depth_strip c)
+
+/-- `==` between values of one pointer nesting means the pointed-to values agree in everything the
+    comparisons read (kind, container size, string, number). -/
+theorem val_eq_iff_partial (a b : JVal) (h : depth a = depth b) (hn : noNaN a = true) :
+    Val.eq a b = true ↔ strip a = strip b := by
+  rw [val_eq_strip a b (by omega)]
+  constructor
+  · exact val_eq_true_imp_eq0 _ _ (depth_strip a) (depth_strip b)
+  · intro e
+    rw [← e]
+    have t := val_tri (strip a) (strip a) (by rw [noNaN_strip]; exact hn) (by rw [noNaN_strip]; exact hn)
+    rw [val_gt_eq_lt_swap0 _ _ (depth_strip a) (depth_strip a), val_lt_irrefl0 _ (depth_strip a)] at t
+    simpa using t
+
+/-! ### The proposed repair restores the full claim (for NaN-free values) -/
+
+theorem fixed_consistent (a b : JVal) (ha : noNaN a = true) (hb : noNaN b = true) :
+    (obsValFixed a b).consistent = true :=
+  val_consistent_partial _ _ (by rw [noNaN_strip]; exact ha) (by rw [noNaN_strip]; exact hb)
+
+theorem fixed_dual (a b : JVal) : (obsValFixed a b).dual (obsValFixed b a) = true :=
+  val_dual_partial _ _ (by rw [depth_strip, depth_strip])
+
+theorem fixed_trans (a b c : JVal) :
+    Obs.trans (obsValFixed a b) (obsValFixed b c) (obsValFixed a c) = true :=
+  val_trans0 _ _ _ (depth_strip a) (depth_strip b) (depth_strip c)
+
+theorem fixed_agrees_on_equal_nesting (a b : JVal) (h : depth a = depth b) :
+    obsValFixed a b = obsVal a b := (obsVal_strip a b h).symm
+
 theorem val_lt_irrefl (a : JVal) : Val.lt a a = false := by
   rw [val_lt_strip a a (Nat.le_refl _)]; exact val_lt_irrefl0 _ (depth_strip a)
 
